@@ -112,7 +112,7 @@ func cannedReply(request []byte) []byte {
 		reply[9] = 3
 		reply[10] = 7
 	case 0x20: // get-status
-		copy(reply[8:], []byte{17, 0, 0, 0, 1, 1, 3, 1})                    // event 17: swipe, granted, door 3, in
+		copy(reply[8:], []byte{17, 0, 0, 0, 1, 1, 3, 1})                   // event 17: swipe, granted, door 3, in
 		copy(reply[16:], []byte{0xa2, 0x98, 0x7c, 0x00})                   // card 8165538
 		copy(reply[20:], []byte{0x20, 0x24, 0x06, 0x15, 0x12, 0x34, 0x50}) // event timestamp
 		reply[27] = 1                                                      // reason
